@@ -18,7 +18,7 @@ NAMED_MAX = 1 << 16      # interned names available to the history: $n0 .. $n655
 
 LANGS = {
     'Lf': {'f': ('F', 'ss'), 'g': ('G', 'ss'), 'h': ('H', 'sss'), 'w': ('W', 'ssss')},
-    'Lb': {'var': ('Var', 's'), 'app': ('App', 'cc'), 'lam': ('Lam', 'bc'), 'k': ('K', 'ss'), 'u': ('U', 'c'), 'j': ('J', 'ss'), 't3': ('T3', 'sss'), 's3': ('S3', 'sss'), 'm3': ('M3', 'sss')},
+    'Lb': {'var': ('Var', 's'), 'app': ('App', 'cc'), 'lam': ('Lam', 'bc'), 'k': ('K', 'ss'), 'u': ('U', 'c'), 'j': ('J', 'ss'), 't3': ('T3', 'sss'), 's3': ('S3', 'sss'), 'm3': ('M3', 'sss'), 'at': ('At', 'sc')},
 }
 
 class Template:
@@ -152,7 +152,9 @@ class SymRun:
             h = self.ex.call(self.M('EGraph::add'), [self.egref, self.node(op[1])])
             self.extra = {'readd': {'term': op[1], 'lookup_some': lk is not None, 'alloc_delta': self.alloc_count() - before,
                                     'eq_old': self.eq(h, self.handles[op[1]]) if op[1] in self.handles else None,
-                                    'lookup_eq_add': self.eq(lk, h) if lk is not None else None}}
+                                    'lookup_eq_add': self.eq(lk, h) if lk is not None else None,
+                                    'ret_vals': [q.f[1].f[0] for q in h.f[1].f[0].items],
+                                    'lk_vals': None if lk is None else [q.f[1].f[0] for q in lk.f[1].f[0].items]}}
             return
         if op[0] == 'probe':
             h = self.lookup_full(op[1])
@@ -455,6 +457,10 @@ def concretize(run, ex):
                             'vals': sorted(str(name_of_value_(v, N, vals, model)) for v in c['vals']),
                             'map': sorted((str(name_of_value_(k, N, vals, model)), str(name_of_value_(v, N, vals, model))) for k, v in zip(c['keys'], c['vals'])),
                             'hvals': sorted(str(name_of_value_(v, N, vals, model)) for v in c['hvals'])} for c in s['canon']]
+            if st.get('readd'):
+                st['readd'] = dict(st['readd'])
+                for kk in ('ret_vals', 'lk_vals'):
+                    if st['readd'].get(kk) is not None: st['readd'][kk] = sorted(str(name_of_value_(v, N, vals, model)) for v in st['readd'][kk])
             if 'extract' in st:
                 def dt(t): return [t[0]] + [dt(a) if isinstance(a, list) else norm_fresh(str(name_of_value_(a, N, vals, model))) for a in t[1:]]
                 st['extract'] = dict(st['extract']); st['extract']['term'] = dt(st['extract']['term'])
